@@ -42,6 +42,31 @@ def model_check(chk, quick):
         chk.infra.append("diagnostic run without the lock did not produce a lost update: the invariants are vacuous")
 
 
+def inductive_check(chk):
+    """Apalache on spec/ConcInd.tla: IndInv is inductive for Conc.tla with the lock, for ANY number of calls per caller
+    (MaxCalls is unconstrained), and implies the three invariants TLC checks for MaxCalls = 2. Four obligations: base,
+    step, IndInv => Goal, and the diagnostic (without the lock the step must FAIL, else IndInv is vacuous). The verdict
+    of C13 on the code comes from the executions below; a failed obligation is an inconsistency of the specification
+    (exit 2), an Apalache that cannot be run is recorded and nothing more."""
+    runs = [("base", "ConstInit", "Init", "IndInv", 0, "NoError"),
+            ("step", "ConstInit", "IndInit", "IndInv", 1, "NoError"),
+            ("goal", "ConstInit", "IndInit", "Goal", 0, "NoError"),
+            ("step_without_lock(diagnostic)", "ConstInitUnlocked", "IndInit", "IndInv", 1, "Error")]
+    with concurrent.futures.ThreadPoolExecutor(max_workers=4) as ex:
+        futs = [(n, want, ex.submit(vlib.run_apalache, "ConcInd", ci, ini, inv, ln)) for n, ci, ini, inv, ln, want in runs]
+        res = {}
+        for n, want, f in futs:
+            r = f.result()
+            r["expected"] = want
+            res[n] = r
+            if r["outcome"] != "unavailable" and r["outcome"] != want:
+                chk.infra.append("Apalache obligation %s of ConcInd.tla: outcome %s, expected %s" % (n, r["outcome"], want))
+    chk.cov["apalache_inductive_invariant"] = {
+        "module": "ConcInd.tla", "constants": "Callers={p,q,r}, Keys={x,y}, MaxCalls \\in Nat (unconstrained)",
+        "obligations": res,
+        "discharged": all(r["outcome"] == r["expected"] for r in res.values())}
+
+
 SAME_MC = """---- MODULE MC_SameItem ----
 EXTENDS SameItem
 c_W2 == {"p", "q"}
@@ -126,6 +151,7 @@ def run(tier):
     quick = tier == "quick"
     rng = random.Random(vlib.seed())
     model_check(chk, quick)
+    inductive_check(chk)
     same_item_observation(chk)
     binary = vlib.build_harness(race=True)
     d = vlib.scratch("conc-")
